@@ -42,7 +42,7 @@ class Ref:
         self.cyc = 0
         self.depth = 0
         self.esp = []            # stack pointer right after the JSR of each open frame
-        self.states = []         # (pc, a, x, y, sp, n, z, cyc, depth, entry_sp, opcode)
+        self.states = []         # (pc, a, x, y, sp, n, z, cyc, depth, entry_sp, opcode, ret)
         self.by_cyc = {}
         self.final = False
         self._snap()
@@ -50,8 +50,9 @@ class Ref:
     def _snap(self):
         op = self.mem[self.pc]
         self.by_cyc[self.cyc] = len(self.states)
+        ret = (1 + self.mem[0x100 + self.sp + 1] + 256 * self.mem[0x100 + self.sp + 2]) & 0xFFFF   # step_out's will_return_to
         self.states.append((self.pc, self.a, self.x, self.y, self.sp, self.n, self.z, self.cyc, self.depth,
-                            self.esp[-1] if self.esp else None, op))
+                            self.esp[-1] if self.esp else None, op, ret))
         if op == BRK:
             self.final = True
 
@@ -518,7 +519,11 @@ class Session:
                     break
                 k = rng.random()
                 s = prog.ref.st(self.cur)
-                if k < 0.34:
+                if s[10] == JSR and k < 0.5:
+                    self._do("stepIn" if k < 0.3 else "next")
+                elif s[8] > 0 and k < 0.35 and not prog.ref.stack_dirty(self.cur):
+                    self._do("stepOut")
+                elif k < 0.34:
                     self._do("continue")
                     if self.bp_reachable(self.lo) and rng.random() < 0.75:
                         self.delay()
@@ -527,7 +532,9 @@ class Session:
                     self._do("stepIn")
                 elif k < 0.70:
                     self._do("next")
-                elif k < 0.82 and s[8] > 0:
+                elif k < 0.82 and s[8] > 0 and not prog.ref.stack_dirty(self.cur):
+                    # (with something pushed, stepOut is the listed class Known_stepout_stack_dirty: in an endless program the
+                    # adapter never answers; the class is exercised by the terminating witness corpus/C19/stepout_after_pha.asm)
                     self._do("stepOut")
                 elif k < 0.92:
                     self._do("setBreakpoints", rng.sample(prog.code_lines, rng.randrange(0, 4)))
@@ -556,6 +563,82 @@ class Session:
         raise ValueError(cmd)
 
 
+# ------------------------------------------------------------------------------------------------ trace inclusion
+ACCEPT_MAX_INDEX = 40000
+
+
+def trace_items(prog, log):
+    """the protocol-visible trace in the vocabulary of model/Dap.v; returns (items, highest instruction index seen)"""
+    items, kinds, top = [], {}, 0
+    for e in log:
+        if e[0] == "req":
+            _, seq, cmd, args = e
+            if cmd in ("initialize", "launch"):
+                continue
+            if cmd == "setBreakpoints":
+                rng = []
+                for b in args["breakpoints"]:
+                    rng += [[lo, hi] for lo, hi in prog.addrs_of_line.get(b["line"], [])]
+                kinds[seq] = "setBreakpoints"
+                items.append(["req", "setBreakpoints", rng])
+            elif cmd == "variables":
+                kinds[seq] = "registers" if args["variablesReference"] == 1 else "flags"
+                items.append(["req", "registers", None])
+            elif cmd in ("configurationDone", "continue", "pause", "stepIn", "next", "stepOut", "stackTrace", "evaluate"):
+                kinds[seq] = cmd
+                items.append(["req", cmd, None])
+            else:
+                raise ValueError("request outside the modelled vocabulary: " + cmd)
+        elif e[0] == "resp":
+            _, seq, cmd, ok, body, msg = e
+            if seq not in kinds:
+                continue
+            kind = kinds[seq]
+            if not ok:
+                raise ValueError("error response to %s: %s" % (cmd, msg))
+            payload = None
+            if kind == "registers":
+                cyc = [int(v["value"]) for v in body["variables"] if v["name"] == "CYC"][0]
+                payload = prog.ref.locate(cyc)
+                if payload is None:
+                    raise ValueError("cycle count %d not on the reference run" % cyc)
+                top = max(top, payload)
+            elif kind == "stackTrace":
+                fr = body.get("stackFrames") or []
+                if fr:
+                    rs = prog.addrs_of_line.get(fr[0]["line"])
+                    if not rs:
+                        raise ValueError("frame on line %d, which holds no instruction" % fr[0]["line"])
+                    payload = rs[0][0]
+            items.append(["resp", "registers" if kind == "flags" else kind, payload])
+        elif e[0] == "event":
+            name, body = e[1], e[2]
+            if name == "initialized":
+                continue
+            if name == "stopped":
+                name = "stopped_" + body["reason"]
+            items.append(["event", name])
+    return items, top
+
+
+def accept_trace(model, prog, log, protocol="StateHeld"):
+    """(accepted?, detail) -- None when the session is too long for the acceptor"""
+    items, top = trace_items(prog, log)
+    if top > ACCEPT_MAX_INDEX:
+        return None, "skipped: %d instructions" % top
+    ref = prog.ref
+    ref.ensure(top + 600)
+    st = ref.states[:top + 600]
+    r = model.call({"cmd": "accept", "protocol": protocol, "fuel": 100000, "items": items,
+                    "pc": [t[0] for t in st], "sp": [t[4] for t in st], "op": [t[10] for t in st], "ret": [t[11] for t in st]}, timeout=120)
+    if r.get("accepted") is True:
+        return True, r
+    if "accepted" in r:
+        k = r.get("at", -1)
+        r["around"] = items[max(0, k - 6):k + 3]
+    return False, r
+
+
 # ------------------------------------------------------------------------------------------------ corpus witnesses
 PAUSE_LOOP = '.test "t" {\n    ldx #0\nloop:\n    inx\n    inx\n    inx\n    jmp loop\n}\n'
 STEPOUT_PHA = '.test "t" {\n    ldx #0\n    lda #7\n    jsr sub\n    inx\n    brk\nsub:\n    pha\n    nop\n    pla\n    rts\n}\n'
@@ -580,9 +663,23 @@ def corpus_sessions(mos, probe, rng):
 
 
 # ------------------------------------------------------------------------------------------------ run
-def absorb(chk, name, s, dist, distinct):
+def absorb(chk, name, s, dist, distinct, model):
     for k, v in s.stats.items():
         dist[k] = dist.get(k, 0) + v
+    # trace inclusion: the recorded trace must be a behaviour of the protocol model
+    hard = [f for f in s.failures if f[0] in ("hang", "died", "error", "harness")]
+    if hasattr(s, "log") and not hard:
+        try:
+            ok, det = accept_trace(model, s.prog, s.log)
+        except ValueError as e:
+            ok, det = False, {"why": str(e)}
+        if ok is None:
+            dist["accept_skipped"] = dist.get("accept_skipped", 0) + 1
+        elif ok:
+            dist["accepted_traces"] = dist.get("accepted_traces", 0) + 1
+            dist["model_actions"] = dist.get("model_actions", 0) + det.get("actions", 0)
+        else:
+            s.failures.append(("trace-inclusion", "the recorded DAP trace is not a behaviour of the protocol model: %s" % json.dumps(det)[:600], None))
     for rec in s.stop_records:
         key = (s.prog.key,) + rec
         if key not in distinct:
@@ -604,16 +701,17 @@ def run(chk):
     rng = random.Random(chk.seed)
     chk.proof = common.prove("C19")
     probe = Proc([common.build_probe()])
+    model = Proc([common.build_model("c19")], timeout=180)
     mos = common.build_mos()
     thorough = chk.tier == "thorough"
-    nsessions = 1000 if thorough else 60
+    nsessions = 1000 if thorough else 150
     dist, distinct = {"sessions": 0, "sessions_sched": 0}, set()
     t0 = time.time()
     for name, s in corpus_sessions(mos, probe, rng):
         s.run()
         dist["sessions"] += 1
-        absorb(chk, name, s, dist, distinct)
-    budget = 1100 if thorough else 110
+        absorb(chk, name, s, dist, distinct, model)
+    budget = 1100 if thorough else 120
     for i in range(nsessions):
         if time.time() - t0 > budget:
             log("time budget reached after %d sessions" % i)
@@ -624,10 +722,11 @@ def run(chk):
         s.run()
         dist["sessions"] += 1
         dist["sessions_sched"] += 1 if sched is not None else 0
-        absorb(chk, "random%d" % i, s, dist, distinct)
+        absorb(chk, "random%d" % i, s, dist, distinct, model)
         if i < 2:
             chk.sample({"program": prog.text, "sched": sched, "stops": s.stop_records[:8]})
     probe.stop()
+    model.stop()
     chk.cov["rule"] = ("one evaluation = one inspected stop of a real debug session (registers read twice, frame read twice, compared with "
                        "the reference run located by the CYC counter); distinct = distinct (program, command, previous instruction index, "
                        "instruction index); every one is non-trivial (a stop reached through pause / breakpoint / step on a program with loops)")
